@@ -36,6 +36,9 @@ type SchedOpts struct {
 	FallbackBound int
 	// DataFreeLocks: see vsched.Options.
 	DataFreeLocks bool
+	// UseMark: the body runs a set-up phase under the default schedule and
+	// then calls vsched.Mark(); only later points are branched on.
+	UseMark bool
 }
 
 // SchedStats is what a search covered.
@@ -91,7 +94,7 @@ func (c *dfsChooser) Choose(step int, p *vsched.Point) int {
 		}
 		return ch
 	}
-	if c.cache {
+	if c.cache && vsched.Cur().Marked() {
 		sp := c.spent
 		if c.bound < 0 {
 			sp = 0 // unbounded search: a state is a state, however it was reached
@@ -155,7 +158,7 @@ func schedOnce(o SchedOpts) SchedStats {
 			break
 		}
 		ch := &dfsChooser{prefix: it.prefix, visited: visited, cache: o.Cache, bound: o.Bound, states: &st.States}
-		res := vsched.Run(vsched.Options{Chooser: ch, NeedKeys: o.Cache, MaxPoints: o.MaxPoints, KeyRunning: o.Bound >= 0, DataFreeLocks: o.DataFreeLocks}, o.Body)
+		res := vsched.Run(vsched.Options{Chooser: ch, NeedKeys: o.Cache, MaxPoints: o.MaxPoints, KeyRunning: o.Bound >= 0, DataFreeLocks: o.DataFreeLocks, UseMark: o.UseMark}, o.Body)
 		st.Executions++
 		st.Transitions += len(res.Points)
 		if len(res.Points) > st.MaxDepth {
@@ -194,7 +197,7 @@ func schedOnce(o SchedOpts) SchedStats {
 		// children: every alternative at every point beyond the prefix
 		spent := 0
 		for i, p := range res.Points {
-			if i >= len(it.prefix) {
+			if i >= len(it.prefix) && i >= res.Mark {
 				for alt := 1; alt < p.NEnabled; alt++ {
 					cost := spent
 					if p.RunningEnabled {
